@@ -72,7 +72,7 @@ class C11(Check):
         q = tier == "quick"
         subsets = [list(c) for r in range(0, 4) for c in itertools.combinations(("dr", "rd", "rr"), r)]
         n = 0
-        for rep in range(3 if q else 60):
+        for rep in range(8 if q else 120):
             for members in subsets:
                 for auto in (False, True):
                     for zero in ("random", "zeros", "sparse"):
@@ -80,15 +80,15 @@ class C11(Check):
                         yield dict(kind="corrfunc", seed=seed * 1000 + n, members=members, auto=auto, fill=zero)
         for i in range(12 if q else 300):
             yield dict(kind="counts-parts", seed=seed * 1000 + i)
-        for i in range(120 if q else 4000):
+        for i in range(400 if q else 10000):
             yield dict(kind="config", seed=seed * 100019 + i)
         for cls in ("CorrData", "RedshiftData", "HistData"):
-            for i in range(40 if q else 1500):
+            for i in range(120 if q else 4000):
                 bins = 1 + (i % 8)
                 yield dict(kind="ascii", cls=cls, seed=seed * 1000 + i, bins=bins, special=bool(i % 3 == 0))
-        for i in range(30 if q else 1000):
+        for i in range(100 if q else 3000):
             yield dict(kind="metadata", seed=seed * 1000 + i)
-        for i in range(6 if q else 100):
+        for i in range(24 if q else 400):
             yield dict(kind="catalog", seed=seed * 1000 + i)
 
     def setup_worker(self):
